@@ -219,7 +219,7 @@ impl UnitSearchDirsBuilder {
         let unit_dir_admin_user = PathBuf::from(UNIT_DIR_ADMIN).join("users");
 
         if unit_dir_admin_user.is_symlink() {
-            match unit_dir_admin_user.read_link() {
+            match unit_dir_admin_user.canonicalize() {
                 Ok(resolved_path) => resolved_path,
                 Err(err) => {
                     if err.kind() != ErrorKind::NotFound {
@@ -242,7 +242,8 @@ impl UnitSearchDirsBuilder {
         filter_fn: Option<&Box<dyn Fn(&walkdir::DirEntry, bool) -> bool>>,
     ) -> Vec<PathBuf> {
         let path = if path.is_symlink() {
-            match path.read_link() {
+            // resolve the link completely: its target may be relative or a link itself
+            match path.canonicalize() {
                 Ok(path) => path,
                 Err(err) => {
                     if err.kind() != ErrorKind::NotFound {
@@ -320,8 +321,15 @@ fn get_non_numeric_filter_func<'a>(
 fn get_user_level_filter_func<'a>(
     resolved_unit_dir_admin_user: PathBuf,
 ) -> Box<dyn Fn(&walkdir::DirEntry, bool) -> bool + 'a> {
-    // the walk of UNIT_DIR_ADMIN lists `users` under its own (unresolved) path even when it is a symbolic link
-    let unit_dir_admin_user = PathBuf::from(UNIT_DIR_ADMIN).join("users");
+    // the walk of UNIT_DIR_ADMIN lists `users` under its own (unresolved) path even when it is a symbolic link;
+    // UNIT_DIR_ADMIN itself is walked under its resolved path when it is a symbolic link
+    let unit_dir_admin = PathBuf::from(UNIT_DIR_ADMIN);
+    let unit_dir_admin_user = if unit_dir_admin.is_symlink() {
+        unit_dir_admin.canonicalize().unwrap_or(unit_dir_admin)
+    } else {
+        unit_dir_admin
+    }
+    .join("users");
 
     return Box::new(move |entry, rootless| -> bool {
         // if quadlet generator is run rootless, do not recurse other user sub dirs
